@@ -739,6 +739,9 @@ def run(ctx: Ctx):
     # `in` snapshots whose previous value is no list display, with and without user-controlled members, vs Model/CollReplace.v
     from .. import collreplace as cr
     cr.check_part(ctx, 120 if not ctx.thorough else 1600, "C10")
+    # snapshots that are evaluated again: every user-controlled part holds the value of its expression at the latest evaluation (Model/ReEval.v)
+    from .. import reevalcorr
+    reevalcorr.check_part(ctx, 150 if not ctx.thorough else 2000, "C10")
     # snapshots that are evaluated but never compared, nested values: what update does vs Model/Undecided.v
     na.check_never(ctx, 200 if not ctx.thorough else 2500, "C10")
 
@@ -747,6 +750,9 @@ def replay(ctx: Ctx, data):
     if isinstance(data.get("case"), dict) and data["case"].get("kind") == "twins":
         from .. import twins
         return twins.replay(data["case"])
+    if isinstance(data.get("case"), dict) and data["case"].get("kind") == "reeval-nested":
+        from .. import reevalcorr
+        return reevalcorr.replay_case(data["case"]["case"])
     if isinstance(data.get("case"), dict) and data["case"].get("kind") == "collreplace":
         from .. import collreplace as cr
         return cr.replay_case(data["case"]["case"])
